@@ -14,6 +14,7 @@ RULES = {
     "C07.R2": "data/scale pairing: each operand whose raw payload reaches a compute primitive has its scale multiplied into the result exactly once",
     "C07.R3": "accumulation dtype: a product of two raw-code operands is promoted to float32 for every pair of 8-bit storage dtypes of the qtype table",
     "C07.R4": "every route casts its result to the scale (activation) dtype last",
+    "C07.R7": "operand invariant: every handler that re-lays out a per-axis tensor (t/transpose, cat/stack, moves, copy_) keeps the declared axis and the scale together, so the axis the matmul guards read is where the scale lies",
     "C07.R5": "primitive preconditions: every call site of torch._int_mm / torch._weight_int8pack_mm carries the preconditions of the platform table; every route falls through to the default implementation",
     "C07.R6": "the bias is added once, after scaling",
 }
@@ -87,6 +88,7 @@ def run(chk):
     accumulation(chk, fns)
     linear_forward(chk, helper_nodes)
     mm_handlers(chk)
+    operand_invariants(chk)
     chk.assume(
         "row-major reshape/view, documented semantics of t/matmul/broadcast/sum",
         "platform table (torch 2.x CUDA: _int_mm needs int8 x int8, rows > 16, rows/inner/outer multiples of 8; sandbox torch 2.14 CPU: _int_mm wrong for inner size 1, _weight_int8pack_mm needs bfloat16 plain activations, int8 weights and inner size a multiple of 16) - established by probing once, not derivable from quanto's sources",
@@ -426,6 +428,50 @@ def linear_forward(chk, helper_nodes):
                 chk.require("C07.R1", f"{h[0].mi.rel}:{p.end[2]}", ok, f"linear dispatch passes (input, other, bias) in order: `{U(p.end[1])}`", h[0].name, "linear dispatch arguments", "any quantized linear: weight and input swapped or bias dropped")
 
 
+def operand_invariants(chk):
+    """C07.R7: the mm/bmm/linear guards read `axis` to decide where the operand's scale lies; that is only right if every handler
+    that re-lays a per-axis tensor out (transposes, joins, moves) keeps the declared axis and the scale together (rules shared with C05/C06)."""
+    from .. import handrules
+    recs = handrules.analyse(chk.repo, chk.tier)
+    n = 0
+    for r in recs:
+        if r.rule == "C06.R8" or (r.rule == "C05.R4" and "transpose" in (r.tag or "")) or (r.rule == "C05.R4" and "transpose" in (r.detail or "")[:60]):
+            n += 1
+            if r.verdict == "ok":
+                chk.ok("C07.R7", r.site, r.detail)
+            elif r.verdict == "bad":
+                chk.bad("C07.R7", r.site, r.function, r.tag, r.detail, (r.witness or "") + " - then torch.mm / linear take the raw-code route with a scale lying along the contracted dimension")
+            else:
+                chk.unknown("C07.R7", r.site, r.detail)
+    chk.floor("C07.R7", n, 3, "axis/scale agreement obligations of re-laying handlers")
+
+
+def _kernel_op(repo):
+    """torch.ops.quanto.qbytes_mm as an abstract function: the default implementation interpreted over labels."""
+    try:
+        default = repo.func("qbytes_mm")[1]
+    except AnalysisError:
+        return None
+    helper_nodes = {}
+    for name in HELPERS:
+        try:
+            helper_nodes[name] = repo.func(name)[1]
+        except AnalysisError:
+            pass
+
+    def qbytes_mm_op(a, w, s):
+        res = Interp(default, dict(zip(positional_params(default), (a, w, s))), helper_nodes).run()
+        oks = [r for r in res if r[0] == "ok"]
+        errs = [r for r in res if r[0] in ("typeerr", "unknown")]
+        if errs:
+            if errs[0][0] == "typeerr":
+                raise lb.TypeErr("in torch.ops.quanto.qbytes_mm: " + errs[0][1])
+            raise lb.Unknown(errs[0][1])
+        return oks[0][1]
+
+    return qbytes_mm_op
+
+
 def mm_handlers(chk, r1="C07.R1", r2="C07.R2", r5="C07.R5"):
     repo = chk.repo
     hs = handlers(repo)["qbytes"]
@@ -457,6 +503,9 @@ def mm_handlers(chk, r1="C07.R1", r2="C07.R2", r5="C07.R5"):
                 raise lb._Raised("fallback")
 
             env = {opn: op_fn, inp: x, oth: y, "qfallback": qfallback}
+            kernel = _kernel_op(repo)
+            if kernel is not None:
+                env["qbytes_mm"] = kernel  # a handler may delegate to the library kernel
             res = Interp(h.fn, env, helpers).run()
             want = lead + (L("n"), L("p"))
             what = f"{h.name}: input {di}, other {do}"
